@@ -19,6 +19,23 @@
   `Compare` (`V.cmp`), `get`/`Get`/`All`, `Unset`, `sortDocs`, `order`, `pick`, `collect`, `Distinct`,
   `tuples`, `Index.baseAdd/baseRemove`, `Index.list`, `appendOplog`, `Txn.clean`, `Sys.commit`.
 
+  Domain notes (what the theorems do NOT say; each was found by running the real code, stream `robust`):
+  * keys / paths contain no NUL byte.  BSON cannot encode such a key (the driver answers "BSON element key
+    cannot contain null bytes"); in `bsonkit` the string "\x00" IS the `PathEnd` sentinel, i.e. the empty
+    segment list `[]`, and `bsonkit.Put(doc, "\x00", v)` does panic on `v.(bson.D)` in the real code —
+    that is the `.panic` branch of the model's `Put`, excluded by `p ≠ []` in `Put_never_panics`
+    (`splitPath` of a NUL-free string is never `[]`: `Put_string_never_panics`).
+  * resources.  The model is total, not bounded: `put` on an array pads up to ANY index below MaxInt
+    (`put_index_guard`: new length = index+1) and `filterDocs` takes any limit.  The real code pads in an
+    unbounded `append` loop (`$set "a.1000000000000"` ends in `fatal error: out of memory`) and pre-allocates
+    `make(List, 0, limit)` (`Find` with limit ≥ 2^47 panics "makeslice: cap out of range", smaller huge
+    limits are a fatal out-of-memory error).  These are C20 FINDINGS on the code (see the final report of
+    this work and the `robust` stream), not covered by the no-panic theorems; `make` with a computed
+    capacity is not a kind of `Gen.PanicSites` yet.
+  * `Coll.update`'s `sameId` is structural equality of `_id` values; the code compares `bson.Marshal`
+    bytes, under which `bsonkit.Missing` (an empty struct) equals the empty document — FINDING: with
+    `_id: {}` stored, `$unset: {_id: 1}` passes the immutability check and the oplog append panics.
+
   Strings do not reduce in the kernel, so the witnesses over concrete documents are evaluated
   tests (`#guard`, marked TEST); the `example`s are kernel-checked.
 -/
